@@ -169,6 +169,21 @@ def rule_nav(ctx: Ctx) -> RuleResult:
     guards = [r for r in _rets(g) if _is_empty_sid(r.value)]
     if not guards:
         problems.append("the untyped / unknown-key fallbacks (empty Sid) are missing")
+    else:
+        # a key the Sid does not have is answered by the empty Sid: some empty return is taken whenever `key in self._fields` fails
+        from ..shape import alternatives as _alts2
+
+        want_ = (f"{key_p} in self._fields", False)
+        covered = False
+        for r_ in guards:
+            if want_ in facts_at(ctx, g, r_):
+                covered = True
+            for t_, lab_ in ctx.ef._dominating_tests(gcfg, r_):
+                if any(set(a_) == {want_} for a_ in _alts2(t_, lab_ == "true")):
+                    covered = True
+        if not covered:
+            problems.append(f"no empty-Sid answer for a key the Sid does not have (`{key_p} not in self._fields`): the walk over the fields finds "
+                            f"nothing and ends in an error")
     if problems:
         res.violation(["spil.sid.sid.TypedSid.get_as", "shape"], "TypedSid.get_as: " + "; ".join(problems), g.relpath, g.node.lineno)
     else:
@@ -689,6 +704,11 @@ def rule_getwith(ctx: Ctx) -> RuleResult:
                 if holder is None or (holder, False) not in fs:
                     problems.append(f"`{norm(n)[:60]}` replaces the overlaid Sid although it may be typed: the returned fields can differ "
                                     f"from the requested overlay")
+                elif (f"{holder}.is_search()", True) not in fs:
+                    # under `<overlay Sid>.is_search() and not <overlay Sid>` the construction is dead (an untyped Sid built from
+                    # fields is the empty Sid, which is no search); under any other guard it runs, and types the joined values by position
+                    problems.append(f"`{norm(n)[:60]}` is reachable for an overlay that fits no type: the joined values are typed again by "
+                                    f"position and a typed Sid with other fields than requested comes back")
     if problems:
         res.violation([f.qualname, "overlay"], "get_with: " + "; ".join(dict.fromkeys(problems)), f.relpath, f.node.lineno)
     else:
@@ -726,8 +746,50 @@ def rule_queryroute(ctx: Ctx) -> RuleResult:
     uses_qsl = any(isinstance(n, ast.Call) and (dotted(n.func) or "").endswith("parse_qsl") for n in own_nodes(td.node))
     uses_enc = any(isinstance(n, ast.Call) and (dotted(n.func) or "").endswith("urlencode") and n.args and norm(n.args[0]) == ts.params[0]
                    for n in own_nodes(ts.node))
-    if uses_qsl and uses_enc:
-        res.ok("query_helper.to_dict / to_string", "urlencode of the whole dictionary / parse_qsl of the whole string")
+    # the text is cleaned the way urlsplit does (tab / line breaks removed, '#fragment' cut) before it is split into pairs: a value read
+    # from a file keeps no line ending that the template expressions would let through ('$' matches before a final newline)
+    qsl = [n for n in own_nodes(td.node) if isinstance(n, ast.Call) and (dotted(n.func) or "").endswith("parse_qsl")]
+    for c_ in qsl:
+        a0 = c_.args[0] if c_.args else None
+        cleaned = a0 is not None and any(isinstance(x, ast.Call) and (dotted(x.func) or "").split(".")[-1] in ("urlsplit", "urlparse") for x in ast.walk(a0))
+        if not cleaned and a0 is not None:
+            tdflow = flow_of(td.node)
+            at_ = tdflow.node_of(c_)
+            cleaned = any(a_.kind == "call" and a_.text.split(".")[-1] in ("urlsplit", "urlparse", "splitlines", "strip", "rstrip")
+                          for a_ in tdflow.depends(a0, at_.id if at_ is not None else None))
+        if not cleaned:
+            res.violation([td.qualname, "codec", "raw text"], f"to_dict hands the raw query text to `{norm(c_)[:50]}`: a trailing line break (or tab) stays in "
+                                                              f"the last value, passes the template expressions and ends up in the fields and the string of a "
+                                                              f"typed Sid", td.relpath, c_.lineno)
+    # the values go into the query text as they are (blanks aside): apply_query reads search symbols in that text, and a typed Sid is
+    # compared through it, so an escaping that to_dict undoes is still visible
+    enc_calls = [n for n in own_nodes(ts.node) if isinstance(n, ast.Call) and (dotted(n.func) or "").endswith("urlencode")]
+    verbatim = False
+    why_enc = "urlencode is used without a quote_via that keeps the characters"
+    for c_ in enc_calls:
+        qv = next((k.value for k in c_.keywords if k.arg == "quote_via"), None)
+        body = None
+        if isinstance(qv, ast.Lambda):
+            body = [qv.body]
+        elif isinstance(qv, ast.Name) and qv.id in ts.nested:
+            body = [r_.value for r_ in own_nodes(ts.nested[qv.id].node) if isinstance(r_, ast.Return) and r_.value is not None]
+        elif isinstance(qv, (ast.Name, ast.Attribute)):
+            r0 = ctx.p.resolve_expr(ts.module, qv, ts)
+            if r0 is not None and r0.kind == "func" and r0.func is not None and r0.func.module.kind in ("library", "config"):
+                body = [r_.value for r_ in own_nodes(r0.func.node) if isinstance(r_, ast.Return) and r_.value is not None]
+        if body:
+            foreign = [x for b_ in body for x in ast.walk(b_) if isinstance(x, ast.Call) and not (
+                (isinstance(x.func, ast.Attribute) and x.func.attr in ("replace", "strip", "lstrip", "rstrip")) or dotted(x.func) == "str")]
+            if foreign:
+                why_enc = f"`{norm(foreign[0])[:50]}` alters the values on their way into the query text"
+            else:
+                verbatim = True
+    if uses_qsl and uses_enc and not verbatim:
+        res.violation(["spil.sid.core.query_helper", "codec", "values altered"], f"to_string: {why_enc}: '>' and other search symbols no longer stand "
+                                                                                 f"in the text that apply_query inspects, and the query form of a Sid is not "
+                                                                                 f"the text it is compared by", ts.relpath, ts.node.lineno)
+    elif uses_qsl and uses_enc:
+        res.ok("query_helper.to_dict / to_string", "urlencode of the whole dictionary with the characters kept / parse_qsl of the whole string")
     else:
         res.violation(["spil.sid.core.query_helper", "codec"], "to_string / to_dict no longer encode / decode the whole mapping", td.relpath, td.node.lineno)
     return res
